@@ -448,6 +448,10 @@ def int_clip(x, val_min, val_max):
 def wrap(x, signed, n_word):
 
     m = (1 << n_word)
+    _xa = np.asarray(x)
+    if _xa.dtype.kind == 'f' and _xa.size > 0 and np.all(np.isfinite(_xa)) and np.max(np.abs(_xa)) >= 2**62:
+        # rounded floats beyond the 64-bit integers: taken as the python integers they are (the cast to int64 is undefined there)
+        x = np.array([int(v) for v in _xa.flatten()], dtype=object).reshape(_xa.shape)
     if n_word >= _n_word_max or np.asarray(x).dtype == object:
         dtype = object
         x = int_array(x).astype(dtype) & (m - 1)
